@@ -72,6 +72,20 @@ def permute(doc: dict, r: random.Random) -> dict:
     return d
 
 
+def permute_keys(doc: dict, r: random.Random) -> dict:
+    """Key order of EVERY mapping of the document is shuffled (YAML/JSON mappings are unordered: an equivalent rendering).
+    Sequences (parameters, required, enum, oneOf/anyOf/allOf, tags) keep their order."""
+    def walk(s):
+        if isinstance(s, dict):
+            ks = list(s)
+            r.shuffle(ks)
+            return {k: walk(s[k]) for k in ks}
+        if isinstance(s, list):
+            return [walk(v) for v in s]
+        return s
+    return walk(json.loads(json.dumps(doc)))
+
+
 def diff_manifest(a: dict, b: dict) -> list[str]:
     out = []
     for sec in ("models", "clients"):
@@ -91,16 +105,20 @@ def check(run: Run, ctx) -> None:
     g.run_corr(run, ctx, "vf.corr.c07", "Ops (status-key typing)", quick=0.3, thorough=3.0)
     from . import _parser
     _parser.run(run, ctx, PROP, known, quick=0.5, thorough=4.0)
+    # primary_response_key_order_invariant is about primaryA/primaryB: tie them to the generated code (return annotation, match arms)
+    g.run_corr(run, ctx, "vf.corr.gencode", "GenCode (primary response selection, arms)", quick=0.35, thorough=2.0)
     run.cov["rule"] = (run.cov.get("rule") or "") + ("[metamorphic e2e] per seeded document: renderings {JSON, YAML block, YAML flow} must give byte-identical trees; YAML with integer status keys the "
-                       "same manifest; 2 random permutations of schemas/paths/properties the same manifest (models->fields, clients->signatures). Distinct by document; non-trivial when >=2 schemas and >=2 operations")
+                       "same manifest; 2 random permutations of schemas/paths/properties and 2 random permutations of the key order of EVERY mapping (path items, responses, content, components.parameters, ...) the same manifest (models->fields, clients->signatures); every third document shares components.parameters through $ref, two thirds declare several 2xx responses with different bodies. Distinct by document; non-trivial when >=2 schemas and >=2 operations")
     cases = []
     for i in range(ctx.budget(14, 120)):
         r = rng(f"C19:{i}")
-        o = gs.Opts(mainstream=True, max_ops=4, always_opid=(i % 2 == 0), prefix_names=(i % 7 == 6), streaming=False)
+        o = gs.Opts(mainstream=True, max_ops=4, always_opid=(i % 2 == 0), prefix_names=(i % 7 == 6), streaming=False,
+                    component_params=(i % 3 == 1), multi_2xx=(i % 3 != 0))
         doc = gs.gen_spec(r, o)
         variants = {"json": {"doc": doc, "fmt": "json"}, "yaml": {"doc": doc, "fmt": "yaml"}, "yamlflow": {"doc": doc, "fmt": "yaml-flow"},
                     "yamlint": {"doc": to_int_status_keys(doc), "fmt": "yaml"},
-                    "perm1": {"doc": permute(doc, r), "fmt": "json"}, "perm2": {"doc": permute(doc, r), "fmt": "json"}}
+                    "perm1": {"doc": permute(doc, r), "fmt": "json"}, "perm2": {"doc": permute(doc, r), "fmt": "json"},
+                    "keys1": {"doc": permute_keys(doc, r), "fmt": "json"}, "keys2": {"doc": permute_keys(doc, r), "fmt": "yaml"}}
         cases.append({"id": f"c19-{i}", "doc": doc, "variants": variants, "prefix_names": has_prefix_names(doc)})
     results = e2e.run_cases("vf.props.C19:case_fn", cases)
     for case, res in zip(cases, results):
@@ -127,7 +145,7 @@ def check(run: Run, ctx) -> None:
             fails.append(("int-status-keys", f"yaml with integer status keys rejected: {o.get('gen_error')}"))
         elif o["tree"] != base["tree"]:
             fails.append(("int-status-keys", "yaml with unquoted integer status keys gives a different client than the quoted rendering"))
-        for v in ("perm1", "perm2"):
+        for v in ("perm1", "perm2", "keys1", "keys2"):
             o = res.get(v, {})
             if not o.get("gen_ok"):
                 fails.append(("permutation-rejected", f"{v}: {o.get('gen_error')}"))
@@ -162,7 +180,7 @@ def replay(run: Run, ctx, rec) -> bool:
     for k, o in res.items():
         if k == "json" or not o.get("gen_ok"):
             continue
-        if k.startswith("perm"):
+        if k.startswith("perm") or k.startswith("keys"):
             if diff_manifest(base["manifest"], o["manifest"]):
                 return True
         elif o["tree"] != base["tree"]:
